@@ -298,6 +298,62 @@ def batchChannelSetup (env : Env) (ourOrder : Order) (m : MatchedOrder) (tx : Ba
                   isPrivate := mb.unannounced
                   zeroConf := mb.zeroConf })
 
+/-! ### whole batches: the loops of `PrepChannelFunding` and `BatchChannelSetup`
+
+`batch.MatchedOrders` is a Go map from our order's nonce to its matched orders; the model takes it as a list of
+(our order as returned by `getOrder` / `DB.GetOrder`, matched orders).  Go map iteration order is unspecified; the
+registrations / requests of one call are compared as sets (sorted) and theorem `C17_prep_batch_regs` shows the
+result is the per-pair results whatever the order.  `traderBehindTor` is `false` (the harness node has a clearnet
+URI).  An error of one pair aborts the call (Go returns at once; what was registered before stays registered –
+the model returns `err` for the whole call and the harness compares only that). -/
+
+structure PrepOut where
+  /-- nodes a connection attempt was started to (`connsInitiated`, insertion order) -/
+  conns : List Bytes := []
+  /-- (shim sent to lnd, pending id, bid handed to the acceptor) per registered pair -/
+  regs : List (Shim × Bytes × ExpBid) := []
+deriving Repr, DecidableEq
+
+/-- body of the inner loop of `PrepChannelFunding` for one matched order -/
+def prepMatch (env : Env) (nodePubKey : Bytes) (ourOrder : Order) (tx : BatchTx) (heightHint : Nat)
+    (st : PrepOut) (m : MatchedOrder) : Res PrepOut :=
+  (prepRegisters env nodePubKey ourOrder m tx heightHint).bind fun r =>
+    match r with
+    | none => .ok st                       -- asker / sidecar provider: `continue` before connecting
+    | some x =>
+      -- the connection attempt is de-duplicated per node, the registration is not
+      let conns := if st.conns.contains m.nodeKey then st.conns else st.conns ++ [m.nodeKey]
+      .ok { conns := conns, regs := st.regs ++ [x] }
+
+def resFoldl {σ α : Type} (f : σ → α → Res σ) : σ → List α → Res σ
+  | s, [] => .ok s
+  | s, a :: rest => (f s a).bind fun s' => resFoldl f s' rest
+
+def prepOrder (env : Env) (nodePubKey : Bytes) (tx : BatchTx) (heightHint : Nat) (st : PrepOut)
+    (e : Order × List MatchedOrder) : Res PrepOut :=
+  resFoldl (prepMatch env nodePubKey e.1 tx heightHint) st e.2
+
+/-- `Manager.PrepChannelFunding` (the registration part) -/
+def prepBatch (env : Env) (nodePubKey : Bytes) (batch : List (Order × List MatchedOrder)) (tx : BatchTx)
+    (heightHint : Nat) : Res PrepOut :=
+  resFoldl (prepOrder env nodePubKey tx heightHint) {} batch
+
+def setupMatch (env : Env) (ourOrder : Order) (tx : BatchTx) (heightHint : Nat)
+    (st : List OpenReq) (m : MatchedOrder) : Res (List OpenReq) :=
+  (batchChannelSetup env ourOrder m tx heightHint).bind fun r =>
+    match r with
+    | none => .ok st
+    | some q => .ok (st ++ [q])
+
+/-- `Manager.BatchChannelSetup`: the `OpenChannelRequest`s sent for a whole batch -/
+def setupBatch (env : Env) (batch : List (Order × List MatchedOrder)) (tx : BatchTx) (heightHint : Nat) :
+    Res (List OpenReq) :=
+  resFoldl (fun st (e : Order × List MatchedOrder) => resFoldl (setupMatch env e.1 tx heightHint) st e.2) [] batch
+
+/-- all (our order, matched order) pairs of a batch -/
+def flatPairs (batch : List (Order × List MatchedOrder)) : List (Order × MatchedOrder) :=
+  batch.flatMap fun e => e.2.map fun m => (e.1, m)
+
 /-! ### what each side sees of the other: `Client.SubmitOrder` followed by `ParseRPCServerAsk/Bid` -/
 
 /-- channel type through `SubmitOrder`'s switch and back through `ParseRPCServerOrder`'s: identity on the three
@@ -381,9 +437,18 @@ def offerGatePinned (offer : Offer) (bidAmt : Int) (minUnits : Nat) : Bool :=
   decide (offer.pushAmt ≤ offer.capacity) &&
   offer.capacity == bidAmt && offer.capacity == wrapI64 (Int.ofNat minUnits * Int.ofNat Gen.C17.baseSupplyUnit)
 
+/-- `funding.Manager.OfferSidecar` (inbound market), the only place where an offer is created and signed: the
+`CheckOfferParams` sanity checks and – after the second `fix:` commit – a non-zero lease duration.  An offer that
+passes `validateAndSignTicketForOrder` carries a valid signature of the provider's own account key, i.e. was made
+here. -/
+def offerSidecarOK (offer : Offer) : Bool :=
+  offer.leaseDurationBlocks != 0 &&
+  offer.capacity != 0 && Int.tmod offer.capacity (Int.ofNat Gen.C17.baseSupplyUnit) == 0 &&
+  decide (offer.pushAmt ≤ offer.capacity)
+
 /-- the gate after the `fix:` commit (`order.CheckOfferMatchesBid`): additionally the parameters the recipient
 takes from the offer must be the bid's; an offer lease duration of zero is treated as "unspecified" (kept so
-that the package's existing tests pass unedited – the residual is recorded as an open finding). -/
+that the package's existing tests pass unedited; such offers are refused where they are made, `offerSidecarOK`). -/
 def offerGate (offer : Offer) (b : Bid) (bidAmt : Int) (minUnits : Nat) : Bool :=
   offerGatePinned offer bidAmt minUnits &&
   (offer.leaseDurationBlocks == 0 || offer.leaseDurationBlocks == b.kit.leaseDuration) &&
